@@ -1,5 +1,6 @@
 import AthlibVerif.Model.Perf
 import AthlibVerif.Lemmas.NatStr
+import AthlibVerif.Lemmas.PerfPlain
 /-!
 # C12 — Performance validation returns plausible, well-formed marks or the given error
 
@@ -12,8 +13,10 @@ patterns and code tuples regenerated from `athlib/codes.py`.  Proved for all inp
 * field events: an accepted result is a two-decimal rendering, within 1.2 × the record;
 * timed events: an accepted time has seconds below 60 whenever a minutes or hours field is printed, and
   minutes below 60 under hours.
-NOT proved (kept as `C12_statement`): idempotence and the speed window on the *text* level — decided on the
-implementation by tools/checks/c12.py (idempotence has known findings, see DESIGN.md).
+The speed window is proved for every parsed text of at most two decimals (`C12_timed_speed_window`); idempotence of timed
+results is proved for plain-seconds results of events shorter than 800 m (`C12_plain_seconds_idempotent_partial`).
+NOT proved (kept as `C12_statement`): idempotence in general — it is false of the code (known findings, see DESIGN.md)
+and decided on the implementation by tools/checks/c12.py.
 -/
 namespace AthlibVerif.Props.C12
 open AthlibVerif AthlibVerif.Codes AthlibVerif.Perf
@@ -240,6 +243,81 @@ theorem C12_field_idempotent (d t g r : Str) (h : checkField d t g = .ok r) : ch
   have : n * 100 / dn * 100 / 100 = n * 100 / dn := Nat.mul_div_cancel _ (by omega)
   rw [this]
 
+
+/-! ## idempotence, partial: plain-seconds results of events shorter than 800 m -/
+
+theorem timedDecide_plain_lt (disc : Str) (d : Nat) (hd : 0 < d) (h0 m0 sn0 dc0 c : Nat)
+    (hr : timedDecide disc (some d) h0 m0 sn0 (10 ^ dc0) dc0 = .time 0 0 c) : c < 10000 := by
+  have hsd : 0 < 10 ^ dc0 := Nat.pow_pos (by decide)
+  generalize 10 ^ dc0 = sd0 at *
+  unfold timedDecide at hr
+  split at hr
+  · cases hr
+  · next hfirst =>
+    simp only [hd, decide_true, Option.getD_some] at hr
+    split at hr
+    · split at hr
+      · cases hr
+      · next hlt =>
+        obtain ⟨_, _, e3, _⟩ := timedGuards_speed _ _ _ _ _ _ _ 0 0 c hr
+        rw [e3]
+        apply Nat.div_lt_of_lt_mul
+        omega
+    · obtain ⟨e1, e2, e3, _⟩ := timedGuards_speed _ _ _ _ _ _ _ 0 0 c hr
+      subst e2
+      simp only [beq_self_eq_true, Bool.true_and, decide_eq_true_eq] at hfirst
+      rw [e3]
+      apply Nat.div_lt_of_lt_mul
+      omega
+
+/-- **A plain-seconds result is accepted unchanged when validated again** (idempotence, partial): for an event with a
+    distance below 800 m, if a text is accepted as a time of `c` hundredths printed without a minutes field, then
+    `c < 10000`, the printed result is `"%0.2f"` of it (`fmt2 c`, at most five characters, so nothing is stripped), and
+    validating that result again accepts it as the same time. -/
+theorem C12_plain_seconds_idempotent_partial (hA : asciiDigitsOK = true) (disc t : Str) (d c : Nat)
+    (hg : getDistance 8 disc = .ok (some d))
+    (hd : 0 < d) (h800 : d < 800) (hr : timedCore disc t = .time 0 0 c) :
+    c < 10000 ∧ formatTime 0 0 c = fmt2 c ∧ timedCore disc (fmt2 c) = .time 0 0 c := by
+  obtain ⟨h0, m0, sn0, dc0, hdec⟩ := timedCore_decided disc t d hg 0 0 c hr
+  have hlt := timedDecide_plain_lt disc d hd h0 m0 sn0 dc0 c hdec
+  obtain ⟨hpos, h11, h10, hslow⟩ := C12_timed_speed_window disc d hd h0 m0 sn0 dc0 0 0 c hdec
+  simp only [Nat.mul_zero, Nat.add_zero, Nat.zero_mul, Nat.zero_add] at hpos h11 h10 hslow
+  refine ⟨hlt, ?_, ?_⟩
+  · unfold formatTime
+    simp only [Nat.lt_irrefl, if_false]
+    exact stripTime_short _ (fmt2_length c hlt)
+  · rw [timedCore_plain disc (fmt2 c) d hg h800 (fmt2_no_colon c) (fmt2_has_dot c) (c, 100, 2) (floatOf_fmt2 hA c)]
+    show timedDecide disc (some d) 0 0 c 100 2 = .time 0 0 c
+    unfold timedDecide
+    have hf : ¬ (c ≥ 100 * 100) := by omega
+    simp only [beq_self_eq_true, Bool.true_and, decide_eq_true_eq, hf, if_false, hd, decide_true, Option.getD_some,
+      Nat.not_lt_zero, gt_iff_lt]
+    rw [if_neg (by simp)]
+    unfold timedGuards speedBad
+    have hc0 : ¬ (c = 0) := by omega
+    have hsl : ¬ (2 * d * 100 < c) := by omega
+    by_cases h4 : d ≤ 400
+    · have := h11 h4
+      have hq : ¬ (d * 100 > 11 * c) := by omega
+      simp [h4, hq, hc0, hsl]
+    · have := h10 (by omega)
+      have hq : ¬ (d * 100 > 10 * c) := by omega
+      simp [h4, hq, hc0, hsl]
+
+/-- the same on the level of the validator's timed branch: the text it returns is `"%0.2f"` of the time, and that text
+    is returned unchanged when validated again -/
+theorem C12_plain_seconds_returned_unchanged (hA : asciiDigitsOK = true) (disc t : Str) (d c : Nat)
+    (hg : getDistance 8 disc = .ok (some d))
+    (hd : 0 < d) (h800 : d < 800) (hr : timedCore disc t = .time 0 0 c) :
+    checkTimed disc t = .ok (fmt2 c) ∧ checkTimed disc (fmt2 c) = .ok (fmt2 c) := by
+  obtain ⟨_, hfmt, h2⟩ := C12_plain_seconds_idempotent_partial hA disc t d c hg hd h800 hr
+  unfold checkTimed
+  rw [hr, h2]
+  simp only [hfmt, and_self]
+
+/-- non-vacuity: 100 m in 10.5 (typed with one decimal) is such a case -/
+example : (match getDistance 8 "100".toList with | .ok (some 100) => true | _ => false) = true ∧
+    timedCore "100".toList "10.5".toList = .time 0 0 1050 := by decide +kernel
 
 /-- Full statement of the remaining clauses (NOT proved here). -/
 def C12_statement : Prop :=
